@@ -1,7 +1,7 @@
-(* C19 — MODEL ONLY: the bookkeeping of qupulse/hardware/awgs/tabor.py::TaborChannelPair that applies a placement
-   decision (clear / upload / free_program / cleanup / remove).  The file cannot be imported offline (no
-   tabor_control); this model was written by reading it and is NOT tied to the source by a correspondence check.
-   Simplifications: `_segment_lengths`, sequencer tables, armed program and all device I/O other than the content of
+(* C19 — the bookkeeping of qupulse/hardware/awgs/tabor.py::TaborChannelPair that applies a placement decision
+   (clear / upload / free_program / cleanup / remove), written by hand.  The file needs tabor_control (not installed);
+   it is tied to the source by a correspondence check that runs the real class against a fake instrument
+   (harness/props/c19_driver.py).  Simplifications: `_segment_lengths`, sequencer tables, armed program and all device I/O other than the content of
    the waveform slots are left out; the device memory is the abstract map slot -> content hash (`dv_dev`).
    Definitions only. *)
 From Coq Require Import ZArith List Bool.
@@ -154,7 +154,10 @@ Definition upload_with (place : place_fun) (d : driver) (name : nat) (segs : lis
           | (d3, None) =>
               let w3 := merge_w2s (d_w2s dec) (d_insert dec) in
               let '(d4, w4) := if existsb (fun b => b) (d_amend dec)
-                               then (let '(d4, idxs) := amend d3 (mask (d_amend dec) segs) in
+                               (* `self.cleanup()` right before `_amend_segments` (repair of the finding
+                                  append-behind-freed-trailing-slots): the placement counted the unreferenced slots
+                                  behind the last referenced one as free space *)
+                               then (let '(d4, idxs) := amend (cleanup d3) (mask (d_amend dec) segs) in
                                      (d4, assign_mask w3 (d_amend dec) idxs))
                                else (d3, w3) in
               (with_known d4 ({| pg_name := name; pg_w2s := w4; pg_segs := map fst segs |} :: dv_known d4), None)
@@ -191,21 +194,10 @@ Fixpoint run_with (place : place_fun) (d : driver) (ops : list op) : driver :=
 Definition run := run_with find_place.
 
 (* ------------------------------------------------------------------------------------------------------------- *)
-(* guard_C19_append_behind_freed_slots: no upload places segments while freed slots trail the last referenced one
-   (upload(force=True) frees without cleanup; so does free_program).  Under this guard the capacities never exceed
-   total_capacity; without it they can (ProofsDriver.capacity_overflow_witness). *)
-Definition pre_state (d : driver) (name : nat) (force : bool) : driver :=
-  if existsb (fun p => Nat.eqb (pg_name p) name) (dv_known d)
-  then (if force then fst (free_program d name) else d)
-  else d.
-Definition no_trailing_free (d : driver) : bool := Nat.eqb (first_free_of (dv_refs d)) (length (dv_refs d)).
-Definition op_guard (d : driver) (o : op) : bool :=
+(* input well-formedness for the capacity theorem: segment lengths are numbers of points (unsigned in the driver) *)
+Definition op_lens_nonneg (o : op) : bool :=
   match o with
-  | OUpload name segs force => no_trailing_free (pre_state d name force) && forallb (fun s => 0 <=? snd s) segs
+  | OUpload _ segs _ => forallb (fun s => 0 <=? snd s) segs
   | _ => true
   end.
-Fixpoint guard_C19_append_behind_freed_slots (d : driver) (ops : list op) : bool :=
-  match ops with
-  | [] => true
-  | o :: r => op_guard d o && guard_C19_append_behind_freed_slots (fst (step_with find_place d o)) r
-  end.
+Definition ops_lens_nonneg (ops : list op) : bool := forallb op_lens_nonneg ops.
